@@ -356,6 +356,74 @@ static void generator_level(const Config & c, const Setup & s, uint64_t phase, S
   }
 }
 
+// several operations registered on one generator: the event = the plain decay followed by every operation in registration order,
+// each drawing the deviates that come next in the stream (two distinct MDL operations, the same one twice, three of them)
+static void generator_multi(const Config & c, const std::vector<Setup> & ss, uint64_t phase, Stats & S)
+{
+  using bxdecay0::decay0_generator;
+  auto build = [&](bool with_ops) {
+    std::unique_ptr<decay0_generator> g(new decay0_generator);
+    g->set_decay_category(c.dbd() ? decay0_generator::DECAY_CATEGORY_DBD : decay0_generator::DECAY_CATEGORY_BACKGROUND);
+    g->set_decay_isotope(c.name);
+    if (c.dbd()) {
+      g->set_decay_dbd_level(c.level);
+      g->set_decay_dbd_mode((bxdecay0::dbd_mode_type)c.mode);
+    }
+    if (with_ops)
+      for (auto & s : ss) {
+        auto opp = std::make_shared<MDL>();
+        std::string why;
+        if (!configure(*opp, s, why)) return std::unique_ptr<decay0_generator>();
+        g->add_operation(opp);
+      }
+    Forced none;
+    PortRand r;
+    r.s.forced = &none;
+    r.s.phase = 4242;
+    r.horizon = 3000000;
+    g->initialize(r);
+    return g;
+  };
+  auto g0 = build(false);
+  auto g1 = build(true);
+  if (!g0 || !g1) return;
+  std::string key = "gen-multi:" + c.key();
+  for (auto & s : ss) key += ":" + setup_key(s);
+  std::string ctx = c.key() + " with " + std::to_string(ss.size()) + " MDL operations, stream " + std::to_string(phase);
+  if (g1->get_operations().size() != ss.size()) S.V(key + ":registered", ctx + ": " + std::to_string(g1->get_operations().size()) + " operations registered");
+  Forced none;
+  PortRand r0, r1;
+  r0.s.forced = r1.s.forced = &none;
+  r0.s.phase = r1.s.phase = phase;
+  r0.horizon = r1.horizon = 200000;
+  event e0, e1;
+  try {
+    g0->shoot(r0, e0);
+    g1->shoot(r1, e1);
+  } catch (HorizonHit &) {
+    S.V(key + ":no-termination", ctx + ": shot does not finish");
+    return;
+  } catch (std::exception & x) {
+    S.V(key + ":exception", ctx + ": " + x.what());
+    return;
+  }
+  S.gen_runs++;
+  event expect = e0;
+  PortRand r2;
+  r2.s.forced = &none;
+  r2.s.phase = phase;
+  r2.horizon = 200000;
+  r2.i = r0.i;
+  for (auto & s : ss) {
+    MDL direct;
+    std::string why;
+    if (!configure(direct, s, why)) return;
+    try { direct(r2, expect); } catch (std::exception &) { return; }
+  }
+  if (!bit_identical(expect, e1) || r2.i != r1.i)
+    S.V(key + ":composition", ctx + ": the event is not the plain decay with the operations applied one after the other (deviates " + std::to_string(r1.i) + " vs " + std::to_string(r2.i) + ")");
+}
+
 int main(int argc, char ** argv)
 {
   std::string out = "/dev/stdout";
@@ -517,6 +585,70 @@ int main(int argc, char ** argv)
             }
           }
   }
+  // ---- rejection loop of the rectangular window: K rejected candidates followed by an accepted one must give exactly the
+  //      event of the accepted candidate alone, whatever K (a bounded retry that falls through is seen at its bound)
+  {
+    long scripted = 0;
+    std::vector<V3> rax = {{1, 0, 0}, {0, 0, 1}, {0.3, -0.8, 0.2}};
+    std::vector<std::pair<double, double>> rrects = {{1.0, 0.05}, {0.05, 1.0}, {0.2, 0.1}, {1.4, 0.02}};
+    std::vector<long> Ks = {1, 2, 3, 5, 10, 20, 50, 99, 100, 101, 127, 128, 129, 255, 256, 257, 500, 999, 1000, 1001, 1023, 1024, 4095, 4096, 4097};
+    std::vector<double> g2 = {1e-12, 0.02, 0.1, 0.25, 0.4, 0.5, 0.6, 0.75, 0.9, 0.98, 1 - 1e-12};
+    for (auto & ax : rax)
+      for (auto & rc : rrects)
+        for (int variant = 0; variant < 2; variant++) {
+          // variant 0: target mode on a 3-particle event (rank 0); variant 1: selection mode on a one-particle event
+          Setup st{2, variant == 0 ? 3 : 0, variant == 0 ? 0 : -1, ax, rc.first, rc.second, false};
+          const event & ev0 = variant == 0 ? events[6].second : events[0].second;
+          MDL op;
+          std::string why;
+          if (!configure(op, st, why)) continue;
+          auto apply = [&](const Forced & f, event & e, size_t & draws) {
+            e = ev0;
+            PortRand r;
+            r.s.forced = &f;
+            r.s.phase = PHASE;
+            r.horizon = 20000;
+            try { op(r, e); } catch (HorizonHit &) { draws = (size_t)-1; return false; } catch (std::exception &) { draws = (size_t)-2; return false; }
+            draws = r.i;
+            return true;
+          };
+          // classify the grid: accepted at once (2 deviates consumed) or rejected (more)
+          std::vector<std::pair<double, double>> acc, rej;
+          for (double u0 : g2)
+            for (double u1 : g2) {
+              Forced f; f[0] = u0; f[1] = u1;
+              event e; size_t d;
+              if (!apply(f, e, d)) continue;
+              (d == 2 ? acc : rej).push_back({u0, u1});
+            }
+          if (acc.empty() || rej.empty()) continue;
+          for (size_t ia = 0; ia < acc.size(); ia += std::max<size_t>(1, acc.size() / 3))
+            for (size_t ir = 0; ir < rej.size(); ir += std::max<size_t>(1, rej.size() / 2)) {
+              Forced fa; fa[0] = acc[ia].first; fa[1] = acc[ia].second;
+              event expect; size_t d0;
+              apply(fa, expect, d0);
+              for (long K : Ks) {
+                Forced f;
+                for (long k = 0; k < K; k++) { f[2 * k] = rej[ir].first; f[2 * k + 1] = rej[ir].second; }
+                f[2 * K] = acc[ia].first; f[2 * K + 1] = acc[ia].second;
+                event got; size_t d;
+                bool ok = apply(f, got, d);
+                scripted++;
+                S.applications++;
+                char kb[200];
+                snprintf(kb, sizeof kb, "mdl:rejection-script:%s", setup_key(st).c_str());
+                if (!ok || d != (size_t)(2 * K + 2) || !bit_identical(got, expect)) {
+                  char tb[400];
+                  snprintf(tb, sizeof tb, "%s: %ld rejected candidates (%.3g,%.3g) then the accepted candidate (%.3g,%.3g): %s (deviates consumed %zd, expected %ld)", st.describe().c_str(), K,
+                           rej[ir].first, rej[ir].second, acc[ia].first, acc[ia].second, ok ? "the event is not the one of the accepted candidate alone" : "the operation fails", (ssize_t)d, 2 * K + 2);
+                  S.V(kb, tb);
+                  break;
+                }
+              }
+            }
+        }
+    S.samples.push_back("scripted rejection runs: " + std::to_string(scripted));
+  }
   // ---- generator-level runs
   {
     std::vector<Config> cfgs;
@@ -548,6 +680,12 @@ int main(int argc, char ** argv)
     for (auto & c : cfgs)
       for (auto & s : gs)
         for (int ph = 0; ph < nph; ph++) generator_level(c, s, 1000 + 17 * ph + PHASE, S);
+    // several operations on one generator
+    Setup elx{0, 3, -1, axes[0], 0.3, -1.0, false}, gamy{0, 1, -1, axes[3], 0.2, -1.0, false}, allz{2, 0, 0, axes[2], 0.2, 0.1, false};
+    std::vector<std::vector<Setup>> multis = {{elx, gamy}, {gamy, elx}, {elx, elx}, {elx, gamy, allz}, {allz, allz}};
+    for (auto & c : cfgs)
+      for (auto & ms : multis)
+        for (int ph = 0; ph < (full ? 12 : 4); ph++) generator_multi(c, ms, 1000 + 17 * ph + PHASE, S);
   }
   FILE * fo = fopen(out.c_str(), "w");
   fprintf(fo, "{\"applications\":%ld,\"target_hits\":%ld,\"selection_hits\":%ld,\"nothing_selected\":%ld,\"refused_setups\":%ld,\"missing_errors\":%ld,\"generator_runs\":%ld,\"samples\":[", S.applications,
